@@ -33,7 +33,7 @@ FUNCS = {
 
 MODULE_GLOBALS = {"UNSAFE_FUNCTION_ATTRIBUTES", "UNSAFE_METHOD_ATTRIBUTES", "UNSAFE_GENERATOR_ATTRIBUTES",
                   "UNSAFE_COROUTINE_ATTRIBUTES", "UNSAFE_ASYNC_GENERATOR_ATTRIBUTES", "_mutable_spec", "str", "type"}
-MODULE_FUNCS = {"is_internal_attribute", "modifies_known_mutable"}
+MODULE_FUNCS = {"is_internal_attribute", "modifies_known_mutable", "_plain_str"}
 RECEIVERS = {"self", "__self", "__context"}
 
 
@@ -423,30 +423,66 @@ Qed.
 
 (* ================================================================== getattr / getitem
    objects: the value trees of Model/SbxAccess *)
+(* is the object one of the two undefined values (operating on them raises)? *)
+Inductive undef_kind := UPlain | UUndef | UUnsafe.
+Definition undef_of (o : value) : undef_kind := match o with VUndef => UUndef | VUnsafe => UUnsafe | _ => UPlain end.
 Definition acc_getattr (o : value) (a : string) : outcome (pv value) :=
-  match o with
-  | VUndef => Exc "UndefinedError"
-  | VUnsafe => Exc "SecurityError"
-  | _ => match py_getattr o a with Some v => Norm (PObj v) | None => Exc "AttributeError" end
+  match undef_of o with
+  | UUndef => Exc "UndefinedError"
+  | UUnsafe => Exc "SecurityError"
+  | UPlain => match py_getattr o a with Some v => Norm (PObj v) | None => Exc "AttributeError" end
   end.
 Definition key_of_pv (k : pv value) : option key :=
   match k with PStr s => Some (KStr s) | PInt z => Some (KInt z) | PSub c s => Some (KSub c s) | _ => None end.
 Definition acc_getitem (o : value) (k : pv value) : outcome (pv value) :=
-  match o with
-  | VUndef => Exc "UndefinedError"
-  | VUnsafe => Exc "SecurityError"
-  | _ => match key_of_pv k with
-         | Some kk => match py_getitem o kk with Some v => Norm (PObj v) | None => Exc "LookupError" end
-         | None => Exc "TypeError"
-         end
+  match undef_of o with
+  | UUndef => Exc "UndefinedError"
+  | UUnsafe => Exc "SecurityError"
+  | UPlain => match key_of_pv k with
+              | Some kk => match py_getitem o kk with Some v => Norm (PObj v) | None => Exc "LookupError" end
+              | None => Exc "TypeError"
+              end
   end.
+(* the model functions, case-split the same way (3 cases instead of one per constructor of [value]) *)
+Lemma sandbox_getattr_cases : forall tb o a,
+  sandbox_getattr tb o a =
+  match undef_of o with
+  | UUndef => RRaise EUndefinedError
+  | UUnsafe => RRaise ESecurityError
+  | UPlain => match py_getattr o a with
+              | Some v => attr_branch tb o a v
+              | None => match py_getitem o (KStr a) with Some v => RItem v | None => RUndefined end
+              end
+  end.
+Proof. intros tb o a. destruct o; reflexivity. Qed.
+Lemma sandbox_getitem_cases : forall tb o k,
+  sandbox_getitem tb o k =
+  match undef_of o with
+  | UUndef => RRaise EUndefinedError
+  | UUnsafe => RRaise ESecurityError
+  | UPlain => match py_getitem o k with
+              | Some v => RItem v
+              | None => match k with
+                        | KStr a | KSub _ a => match py_getattr o a with Some v => attr_branch tb o a v | None => RUndefined end
+                        | KInt _ => RUndefined
+                        end
+              end
+  end.
+Proof. intros tb o k. destruct o; destruct k; reflexivity. Qed.
 Definition acc_globals (n : string) : pv value := if String.eqb n "str" then PStrTy else PNone.
 Definition acc_call (tb : tables) (f : string) (args : list (pv value)) : list noev * outcome (pv value) :=
   if String.eqb f "self.is_safe_attribute" then
     match args with
     | [PObj o; PStr a; _] => lift_bool (src_safe tb (kind_of o) a)
-    | [PObj o; PSub content _; _] => lift_bool (src_safe tb (kind_of o) content)
-        (* a str-subclass instance passed on as the name: startswith() etc. see its content *)
+    | [PObj o; PSub _ _; _] => ([], Norm (PBool true))
+        (* a str-subclass instance passed on as the name: its startswith / == / hash are the data's own code, so a
+           check made on it is worth nothing — modelled adversarially as "safe" *)
+    | _ => ([], Exc "TypeError")
+    end
+  else if String.eqb f "_plain_str" then
+    match args with
+    | [PStr a] => ([], Norm (PStr a))
+    | [PSub content _] => ([], Norm (PStr content))      (* str.__str__: the characters, not what __str__ says *)
     | _ => ([], Exc "TypeError")
     end
   else if String.eqb f "self.wrap_str_format" then
@@ -481,27 +517,42 @@ Definition src_getitem (tb : tables) (o : value) (k : key) : list noev * outcome
       [(%(gi_self)s, PNone); (%(gi_obj)s, PObj o); (%(gi_arg)s, pv_of_key k)].
 
 Ltac access_crunch tb :=
-  repeat (cbn -[src_safe is_safe_attribute py_getattr py_getitem wrap_str_format kind_of];
+  repeat (cbn -[src_safe is_safe_attribute py_getattr py_getitem wrap_str_format kind_of undef_of];
           try rewrite is_safe_attribute_source_eq_model;
+          try match goal with H : undef_of _ = _ |- _ => rewrite H end;
           match goal with
           | |- context [match py_getattr ?o ?a with _ => _ end] => destruct (py_getattr o a) eqn:?
           | |- context [match py_getitem ?o ?k with _ => _ end] => destruct (py_getitem o k) eqn:?
           | |- context [if is_safe_attribute ?t ?k ?a then _ else _] => destruct (is_safe_attribute t k a) eqn:?
           | |- context [match wrap_str_format ?v with _ => _ end] => destruct (wrap_str_format v) eqn:?
           end);
-  cbn -[src_safe is_safe_attribute py_getattr py_getitem wrap_str_format kind_of];
+  cbn -[src_safe is_safe_attribute py_getattr py_getitem wrap_str_format kind_of undef_of];
+  try match goal with H : undef_of _ = _ |- _ => rewrite H end;
+  cbn -[src_safe is_safe_attribute py_getattr py_getitem wrap_str_format kind_of undef_of];
   try reflexivity; try congruence.
 
 Theorem getattr_source_eq_model : forall tb o a, src_getattr tb o a = visible (sandbox_getattr tb o a).
 Proof.
-  intros tb o a. unfold src_getattr, body_getattr, sandbox_getattr, attr_branch, run.
-  destruct o; access_crunch tb.
+  intros tb o a. rewrite sandbox_getattr_cases. unfold src_getattr, body_getattr, attr_branch, run, acc_getattr, acc_getitem.
+  destruct (undef_of o) eqn:Hu; access_crunch tb.
+Qed.
+
+(* the name handed to getattr is an instance of a str subclass (content [c]): it is looked up and CHECKED as [c] *)
+Definition src_getattr_subname (tb : tables) (o : value) (c shown : string) : list noev * outcome (pv value) :=
+  run value noev acc_globals yes acc_getattr acc_getitem (acc_call tb) exn_isa body_getattr
+      [(%(ga_self)s, PNone); (%(ga_obj)s, PObj o); (%(ga_attr)s, PSub c shown)].
+
+Theorem getattr_subclass_name_source_eq_model : forall tb o c shown,
+  src_getattr_subname tb o c shown = visible (sandbox_getattr tb o c).
+Proof.
+  intros tb o c shown. rewrite sandbox_getattr_cases. unfold src_getattr_subname, body_getattr, attr_branch, run, acc_getattr, acc_getitem.
+  destruct (undef_of o) eqn:Hu; access_crunch tb.
 Qed.
 
 Theorem getitem_source_eq_model : forall tb o k, src_getitem tb o k = visible (sandbox_getitem tb o k).
 Proof.
-  intros tb o k. unfold src_getitem, body_getitem, sandbox_getitem, attr_branch, run.
-  destruct k; destruct o; access_crunch tb.
+  intros tb o k. rewrite sandbox_getitem_cases. unfold src_getitem, body_getitem, attr_branch, run, acc_getattr, acc_getitem.
+  destruct k; destruct (undef_of o) eqn:Hu; access_crunch tb.
 Qed.
 
 (* ================================================================== is_safe_callable / call
@@ -696,7 +747,7 @@ THEOREMS = {
     "safe": ["is_safe_attribute_source_eq_model"],
     "other": ["is_internal_attribute_source_eq_model_other", "is_safe_attribute_source_eq_model_other"],
     "imm": ["immutable_is_safe_attribute_source_eq_model"],
-    "access": ["getattr_source_eq_model", "getitem_source_eq_model"],
+    "access": ["getattr_source_eq_model", "getattr_subclass_name_source_eq_model", "getitem_source_eq_model"],
     "call": ["is_safe_callable_source_eq_model", "call_source_eq_model"],
     "immcall": ["immutable_is_safe_callable_source_eq_model"],
 }
